@@ -135,6 +135,8 @@ def fresh_rule(model: Model, res, rule: str = "R-FRESH", allow: Optional[Dict[st
                 name = p.arg
                 escapes = [s for s in ast.walk(f.node) if isinstance(s, ast.Assign) and isinstance(s.value, ast.Name) and s.value.id == name
                            and any(isinstance(t, (ast.Attribute, ast.Subscript)) for t in s.targets)]
+                escapes += [s for s in ast.walk(f.node) if isinstance(s, ast.AnnAssign) and isinstance(s.value, ast.Name) and s.value.id == name
+                            and isinstance(s.target, (ast.Attribute, ast.Subscript))]
                 escapes += [s for s in ast.walk(f.node) if isinstance(s, ast.Return) and isinstance(s.value, ast.Name) and s.value.id == name]
                 muts = _writes_through(f.node, lambda b, name=name: isinstance(b, ast.Name) and b.id == name)
                 if escapes or muts:
